@@ -243,4 +243,77 @@ theorem runOps_first_error_final (cd : Codec α) (cfg : DecCfg) (fuel : Nat) (hf
       simp only [List.cons_append, List.cons.injEq] at h
       exact ih s1 evs1 pre' post o hst.1 h.2 he
 
+/-! ### `Grpc::unary` / `map_request_unary` are consumers of the kind above -/
+
+/-- the `try_next().await` of the unary callers is `message()` polled until it is ready -/
+theorem firstItem_runOps (cd : Codec α) (cfg : DecCfg) (fuel : Nat) (n : Nat) : ∀ (s : DecSt) (evs : List BodyEv) (k : Nat)
+    (s' : DecSt) (evs' : List BodyEv) (k' : Nat) (o : Item α),
+    Dec.firstItem cd cfg n s evs k = some (s', evs', k', o) →
+    o.isPending = false ∧ ∃ j, k' = k + j ∧ ∀ rest, Dec.runOps cd cfg fuel (List.replicate (j + 1) .message ++ rest) s evs
+      = List.replicate j (.item .pending) ++ .item o :: Dec.runOps cd cfg fuel rest s' evs' := by
+  induction n with
+  | zero => intro s evs k s' evs' k' o h; simp [Dec.firstItem] at h
+  | succ n ih =>
+    intro s evs k s' evs' k' o h
+    simp only [Dec.firstItem] at h
+    generalize hp : Dec.pollNext cd cfg s evs = p at h
+    obtain ⟨s1, evs1, o1⟩ := p
+    cases o1 with
+    | pending =>
+      obtain ⟨hnp, j, hk, hrun⟩ := ih s1 evs1 (k + 1) s' evs' k' o h
+      refine ⟨hnp, j + 1, by omega, ?_⟩
+      intro rest
+      have := hrun rest
+      simp only [List.replicate_succ, List.cons_append, Dec.runOps, Dec.stepOp, hp] at this ⊢
+      rw [this]
+    | msg m =>
+      simp only [Option.some.injEq, Prod.mk.injEq] at h
+      obtain ⟨rfl, rfl, rfl, rfl⟩ := h
+      exact ⟨rfl, 0, by omega, by intro rest; simp [Dec.runOps, Dec.stepOp, hp]⟩
+    | none =>
+      simp only [Option.some.injEq, Prod.mk.injEq] at h
+      obtain ⟨rfl, rfl, rfl, rfl⟩ := h
+      exact ⟨rfl, 0, by omega, by intro rest; simp [Dec.runOps, Dec.stepOp, hp]⟩
+    | err e =>
+      simp only [Option.some.injEq, Prod.mk.injEq] at h
+      obtain ⟨rfl, rfl, rfl, rfl⟩ := h
+      exact ⟨rfl, 0, by omega, by intro rest; simp [Dec.runOps, Dec.stepOp, hp]⟩
+
+/-- how the result of a unary call reads off the consumer `message()ʲ⁺¹ ; trailers()`: `j` `Pending`s,
+then the first ready result `o`, then the answer `x` of `trailers()` -/
+def UnaryView (u : UnOut α) (j : Nat) (o : Item α) (x : OpOut α) : Prop :=
+  match u with
+  | .fuel => False
+  | .missing p => p = j ∧ o = .none
+  | .err p e => (p = j ∧ o = .err e) ∨ (∃ m k2, o = .msg m ∧ x = .tr (.err k2 e) ∧ p = j + k2)
+  | .ok p m => ∃ k2 t, o = .msg m ∧ x = .tr (.ok k2 t) ∧ p = j + k2
+
+theorem unaryCall_view (cd : Codec α) (cfg : DecCfg) (fuel : Nat) (s : DecSt) (evs : List BodyEv)
+    (h : Dec.unaryCall cd cfg fuel s evs ≠ .fuel) :
+    ∃ j o x, Dec.runOps cd cfg fuel (List.replicate (j + 1) .message ++ [.trailers]) s evs
+        = List.replicate j (.item .pending) ++ [.item o, x] ∧
+      UnaryView (Dec.unaryCall cd cfg fuel s evs) j o x := by
+  unfold Dec.unaryCall at h ⊢
+  cases hf : Dec.firstItem cd cfg fuel s evs 0 with
+  | none => simp [hf] at h
+  | some q =>
+    obtain ⟨s', evs', k, o⟩ := q
+    obtain ⟨hnp, j, hk, hrun⟩ := firstItem_runOps cd cfg fuel fuel s evs 0 s' evs' k o hf
+    have hk : k = j := by omega
+    subst hk
+    have hr := hrun [.trailers]
+    simp only [Dec.runOps, Dec.stepOp] at hr
+    refine ⟨k, o, .tr (Dec.trailersCall cd cfg fuel s' evs').2.2, hr, ?_⟩
+    simp only [hf] at h ⊢
+    cases o with
+    | pending => simp [Item.isPending] at hnp
+    | none => simp [UnaryView]
+    | err e => simp [UnaryView]
+    | msg m =>
+      simp only at h ⊢
+      cases ht : (Dec.trailersCall cd cfg fuel s' evs').2.2 with
+      | fuel => simp [ht] at h
+      | ok k2 t => simp [UnaryView]
+      | err k2 e => simp [UnaryView]
+
 end Framing
